@@ -1,5 +1,9 @@
 import TTProofs.Lemmas.C12_Builders
 import TTProofs.Lemmas.C12_Sort
+import TTModel.C04_Subst
+import TTModel.C05_SiteModel
+import TTModel.C06_Heights
+import TTProofs.Lemmas.Sums
 /-!
 # C12 — gradients are the derivatives of the reported densities (property theorems)
 
@@ -402,5 +406,440 @@ example : HasDerivAt (fun t => C08.skygridLogProb [2, 3] [3] (([0, 0, 1, 2, 4] :
     (by intro g hg; simp at hg; subst hg; norm_num)
     3 (by simp [hs, C08.times]) (by simp [hs, C08.times])
   simpa [hs, C08.times, C08.marks] using h
+
+
+/-! ## GMRF (`GMRF._call` without tree; own closed form — no other property models it yet) -/
+
+/-- `log τ · (N−1)/2 − Σ (x_i − x_{i+1})² [/ w_i] · τ/2 − (N−1)/2 · c` (`c` = the literal `log 2π`) -/
+noncomputable def gmrfLogDensity (x : List ℝ) (τ : ℝ) (w : Option (List ℝ)) (c : ℝ) : ℝ :=
+  let sq := (diffsRev x).map fun d => d * d
+  let sq := match w with
+    | none => sq
+    | some w => List.zipWith (fun a b => a / b) sq w
+  Real.log τ * ((x.length - 1 : ℕ) : ℝ) / 2 - sq.sum * τ / 2 - ((x.length - 1 : ℕ) : ℝ) / 2 * c
+
+theorem map_eval_sq (ρ : Nat → ℝ) (xs : List Expr) :
+    ((diffsRevE xs).map fun d => mul d d).map (eval ρ) = (diffsRev (xs.map (eval ρ))).map fun d => d * d := by
+  rw [← map_eval_diffsRevE, List.map_map, List.map_map]
+  apply List.map_congr_left
+  intro d _
+  simp [eval]
+
+theorem eval_gmrfE (ρ : Nat → ℝ) (xs : List Expr) (τ c : Expr) (ws : Option (List Expr)) :
+    eval ρ (gmrfE xs τ ws c) =
+      gmrfLogDensity (xs.map (eval ρ)) (eval ρ τ) (ws.map fun w => w.map (eval ρ)) (eval ρ c) := by
+  cases ws with
+  | none =>
+    simp only [gmrfE, gmrfLogDensity, eval, eval_sumL_real, Option.map_none, trans_log_real, List.length_map]
+    rw [map_eval_sq]
+    simp only [Nat.cast_ofNat]
+  | some w =>
+    simp only [gmrfE, gmrfLogDensity, eval, eval_sumL_real, Option.map_some, trans_log_real, List.length_map]
+    have : (List.zipWith div ((diffsRevE xs).map fun d => mul d d) w).map (eval ρ)
+        = List.zipWith (fun a b => a / b) ((diffsRev (xs.map (eval ρ))).map fun d => d * d) (w.map (eval ρ)) := by
+      rw [List.map_zipWith, ← map_eval_sq, List.zipWith_map]
+      rfl
+    rw [this]
+    simp only [Nat.cast_ofNat]
+
+theorem defined_div_nat2 (ρ : Nat → ℝ) (a : Expr) (ha : Defined ρ a) : Defined ρ (div a (nat 2)) :=
+  ⟨ha, trivial, by simp [eval]⟩
+
+theorem defined_gmrfE (ρ : Nat → ℝ) (xs : List Expr) (τ c : Expr) (ws : Option (List Expr))
+    (hx : ∀ e ∈ xs, Defined ρ e) (hτ : Defined ρ τ) (hτ0 : eval ρ τ ≠ 0) (hc : Defined ρ c)
+    (hw : ∀ w, ws = some w → ∀ e ∈ w, Defined ρ e ∧ eval ρ e ≠ 0) :
+    Defined ρ (gmrfE xs τ ws c) := by
+  have hsq : ∀ e ∈ (diffsRevE xs).map (fun d => mul d d), Defined ρ e := by
+    intro e he
+    obtain ⟨d, hd, rfl⟩ := List.mem_map.mp he
+    exact ⟨defined_diffsRevE ρ xs hx d hd, defined_diffsRevE ρ xs hx d hd⟩
+  cases ws with
+  | none =>
+    exact ⟨⟨defined_div_nat2 _ _ ⟨⟨hτ, hτ0⟩, trivial⟩, defined_div_nat2 _ _ ⟨(defined_sumL _ _).2 hsq, hτ⟩⟩,
+      ⟨defined_div_nat2 _ _ trivial, hc⟩⟩
+  | some w =>
+    refine ⟨⟨defined_div_nat2 _ _ ⟨⟨hτ, hτ0⟩, trivial⟩,
+      defined_div_nat2 _ _ ⟨(defined_sumL _ _).2 (mem_zipWith fun a ha b hb => ?_), hτ⟩⟩,
+      ⟨defined_div_nat2 _ _ trivial, hc⟩⟩
+    exact ⟨hsq a ha, (hw w rfl b hb).1, (hw w rfl b hb).2⟩
+
+/-- the builder on the variable layout `field ++ [τ, c] ++ weights` evaluates to the closed form -/
+theorem gmrf_eval_env (y : List ℝ) (τ c : ℝ) (w : Option (List ℝ)) :
+    eval (envOf (y ++ ([τ, c] ++ (w.getD []))))
+      (gmrfE (vars 0 y.length) (var y.length) (w.map fun l => vars (y.length + 2) l.length) (var (y.length + 1)))
+      = gmrfLogDensity y τ w c := by
+  rw [eval_gmrfE, map_eval_vars_envOf_prefix]
+  have h1 : eval (envOf (y ++ ([τ, c] ++ (w.getD [])))) (var y.length) = τ := by
+    simp [eval, envOf, List.getD_eq_getElem?_getD]
+  have h2 : eval (envOf (y ++ ([τ, c] ++ (w.getD [])))) (var (y.length + 1)) = c := by
+    simp [eval, envOf, List.getD_eq_getElem?_getD]
+  rw [h1, h2]
+  cases w with
+  | none => rfl
+  | some l =>
+    have h3 : (vars (y.length + 2) l.length).map (eval (envOf (y ++ ([τ, c] ++ l)))) = l := by
+      have := map_eval_vars_envOf (y ++ [τ, c]) l
+      simpa [List.append_assoc] using this
+    simp only [Option.map_some, Option.getD_some, h3]
+
+theorem gmrf_defined_env (y : List ℝ) (τ c : ℝ) (w : Option (List ℝ)) (hτ : τ ≠ 0)
+    (hw : ∀ l, w = some l → ∀ v ∈ l, v ≠ 0) :
+    Defined (envOf (y ++ ([τ, c] ++ (w.getD []))))
+      (gmrfE (vars 0 y.length) (var y.length) (w.map fun l => vars (y.length + 2) l.length) (var (y.length + 1))) := by
+  refine defined_gmrfE _ _ _ _ _ (defined_vars _ _ _) trivial ?_ trivial ?_
+  · simpa [eval, envOf, List.getD_eq_getElem?_getD] using hτ
+  · intro l' hl' e he
+    cases w with
+    | none => simp at hl'
+    | some l =>
+      simp only [Option.map_some, Option.some.injEq] at hl'
+      subst hl'
+      refine ⟨defined_vars _ _ _ e he, ?_⟩
+      have h3 : (vars (y.length + 2) l.length).map (eval (envOf (y ++ ([τ, c] ++ l)))) = l := by
+        have := map_eval_vars_envOf (y ++ [τ, c]) l
+        simpa [List.append_assoc] using this
+      have hm : eval (envOf (y ++ ([τ, c] ++ l))) e ∈
+          (vars (y.length + 2) l.length).map (eval (envOf (y ++ ([τ, c] ++ l)))) := List.mem_map_of_mem he
+      rw [h3] at hm
+      exact hw l rfl _ hm
+
+/-- **GMRF, derivative in each field entry** (variables: field, then `τ`, then `c`, then weights). -/
+theorem hasDerivAt_gmrf_field (x : List ℝ) (τ c : ℝ) (w : Option (List ℝ)) (k : Nat) (hk : k < x.length)
+    (hτ : τ ≠ 0) (hw : ∀ l, w = some l → ∀ v ∈ l, v ≠ 0) :
+    HasDerivAt (fun t => gmrfLogDensity (x.set k t) τ w c)
+      (partialD (gmrfE (vars 0 x.length) (var x.length) (w.map fun l => vars (x.length + 2) l.length)
+          (var (x.length + 1)))
+        (envOf (x ++ ([τ, c] ++ (w.getD [])))) k) x[k] := by
+  have hk' : k < (x ++ ([τ, c] ++ (w.getD []))).length := by simp; omega
+  have h := hasDerivAt_of_eval' _ _ k (fun t => gmrfLogDensity (x.set k t) τ w c)
+    (gmrf_defined_env x τ c w hτ hw)
+    (fun t => by
+      rw [update_envOf _ _ hk', List.set_append_left _ _ hk]
+      have := gmrf_eval_env (x.set k t) τ c w
+      simp only [List.length_set] at this
+      exact this.symm)
+  rw [envOf_getElem _ _ hk'] at h
+  simpa [List.getElem_append_left hk] using h
+
+/-- **GMRF, derivative in the precision.** -/
+theorem hasDerivAt_gmrf_precision (x : List ℝ) (τ c : ℝ) (w : Option (List ℝ))
+    (hτ : τ ≠ 0) (hw : ∀ l, w = some l → ∀ v ∈ l, v ≠ 0) :
+    HasDerivAt (fun t => gmrfLogDensity x t w c)
+      (partialD (gmrfE (vars 0 x.length) (var x.length) (w.map fun l => vars (x.length + 2) l.length)
+          (var (x.length + 1)))
+        (envOf (x ++ ([τ, c] ++ (w.getD [])))) x.length) τ := by
+  have hk' : x.length < (x ++ ([τ, c] ++ (w.getD []))).length := by simp
+  have h := hasDerivAt_of_eval' _ _ x.length (fun t => gmrfLogDensity x t w c)
+    (gmrf_defined_env x τ c w hτ hw)
+    (fun t => by
+      rw [update_envOf _ _ hk', List.set_append_right _ _ (le_refl _)]
+      have := gmrf_eval_env x t c w
+      simpa using this.symm)
+  rw [envOf_getElem _ _ hk'] at h
+  simpa using h
+
+/-- the hypotheses are met: field `(1, -2, 3)`, precision `2`, weights `(1/2, 4)` -/
+example : HasDerivAt (fun t => gmrfLogDensity [1, t, 3] 2 (some [1 / 2, 4]) 5)
+    (partialD (gmrfE (vars 0 3) (var 3) (some (vars 5 2)) (var 4)) (envOf ([1, -2, 3, 2, 5, 1 / 2, 4] : List ℝ)) 1)
+    (-2) := by
+  have h := hasDerivAt_gmrf_field [1, -2, 3] 2 5 (some [1 / 2, 4]) 1 (by simp) (by norm_num)
+    (by intro l hl v hv; simp at hl; subst hl; simp at hv; rcases hv with rfl | rfl <;> norm_num)
+  simpa using h
+
+
+/-! ## JC69 transition probabilities (`JC69.p_t`, model `TT.C04.jc69P`) -/
+
+theorem jc69P_eq_eval (t : ℝ) (i j : Fin 4) :
+    C04.jc69P t i j = eval (envOf [t]) (if i = j then jcDiagE (var 0) else jcOffE (var 0)) := by
+  by_cases h : i = j <;> simp [h, C04.jc69P, jcDiagE, jcOffE, ratio, eval, envOf]
+
+theorem defined_jc (ρ : Nat → ℝ) (i j : Fin 4) : Defined ρ (if i = j then jcDiagE (var 0) else jcOffE (var 0)) := by
+  by_cases h : i = j <;> simp [h, jcDiagE, jcOffE, ratio, Defined, eval]
+
+/-- **JC69: every entry of `P(t)` in `t`.** -/
+theorem hasDerivAt_jc69P (t : ℝ) (i j : Fin 4) :
+    HasDerivAt (fun s => C04.jc69P s i j)
+      (partialD (if i = j then jcDiagE (var 0) else jcOffE (var 0)) (envOf [t]) 0) t := by
+  have h := hasDerivAt_of_eval' _ (envOf [t]) 0 (fun s => C04.jc69P s i j) (defined_jc _ i j)
+    (fun s => by
+      rw [update_envOf _ 0 (by simp)]
+      simpa using jc69P_eq_eval s i j)
+  simpa [envOf] using h
+
+/-- the tangent is the familiar `−exp(−4t/3)` on the diagonal -/
+example (t : ℝ) : partialD (jcDiagE (var 0)) (envOf [t]) 0 = -Real.exp (-4 / 3 * t) := by
+  simp only [partialD, jcDiagE, ratio, eval, seed, envOf, Dual.add_d, Dual.mul_d, Dual.div_d, Dual.div_v,
+    Dual.exp_d, Dual.exp_v, Dual.mul_v, Dual.neg_v, Dual.neg_d, Dual.natCast_v, Dual.natCast_d, trans_exp_real,
+    List.getD_cons_zero, if_true]
+  norm_num
+  ring_nf
+
+/-! ## discretised Weibull site rates (`WeibullSiteModel.rates`, model `TT.C05.weibull`) -/
+
+theorem map_finRange_val {β : Type} (K : Nat) (g : Nat → β) :
+    (List.finRange K).map (fun j => g j.val) = (List.range K).map g := by
+  apply List.ext_getElem
+  · simp
+  · intro i h1 h2
+    simp
+
+theorem eval_quantileE (ρ : Nat → ℝ) (K i : Nat) (hi : i < K) :
+    eval ρ (quantileE K i) = C05.quantile K ⟨i, hi⟩ := by
+  simp [quantileE, eval, C05.quantile, C05.two]
+  norm_num
+
+theorem eval_weibullIcdfE (ρ : Nat → ℝ) (shape : Expr) (K i : Nat) (hi : i < K) :
+    eval ρ (weibullIcdfE shape K i) = C05.weibullIcdf (eval ρ shape) (C05.quantile K ⟨i, hi⟩) := by
+  simp only [weibullIcdfE, eval, eval_quantileE ρ K i hi, C05.weibullIcdf]
+  simp
+
+/-- the normaliser `Σ raw·probs` of the builder is the C05 normaliser (no invariant category) -/
+theorem eval_weibull_norm (ρ : Nat → ℝ) (shape : Expr) (K : Nat) :
+    eval ρ (sumL (List.zipWith mul ((List.range K).map (weibullIcdfE shape K))
+        ((List.range K).map fun _ => div (nat 1) (nat K))))
+      = C05.normaliser (C05.weibullRaw K (eval ρ shape)) (C05.probsPlain K) := by
+  rw [eval_sumL_real, C05.normaliser, TT.sumFin_eq_sum, Fin.sum_univ_def]
+  congr 1
+  have : (List.finRange K).map (fun j : Fin K => C05.weibullRaw K (eval ρ shape) j * C05.probsPlain K j)
+      = (List.range K).map fun j => (if h : j < K then C05.weibullIcdf (eval ρ shape) (C05.quantile K ⟨j, h⟩) else 0)
+          * (1 / (K : ℝ)) := by
+    rw [← map_finRange_val]
+    apply List.map_congr_left
+    intro j _
+    simp [C05.weibullRaw, C05.probsPlain, j.isLt]
+  rw [this, List.map_zipWith, List.zipWith_map, List.zipWith_self]
+  apply List.ext_getElem
+  · simp
+  · intro i h1 h2
+    have hi : i < K := by simpa using h1
+    simp [eval, eval_weibullIcdfE ρ shape K i hi, hi]
+
+/-- **value link**: category `i` of the builder is the rate `i` of the C05 Weibull site model -/
+theorem weibull_rate_eq_eval (K : Nat) (shape : ℝ) (mu : Option ℝ) (i : Fin K) :
+    (C05.weibull K shape none mu).rates i =
+      eval (envOf (shape :: mu.toList))
+        ((weibullRatesE K (var 0) none (mu.map fun _ => var 1)).getD i.val (nat 0)) := by
+  have hlen : i.val < ((List.range K).map (weibullIcdfE (var 0) K)).length := by simp
+  cases mu with
+  | none =>
+    simp only [weibullRatesE, Option.map_none, List.getD_eq_getElem?_getD, List.getElem?_map,
+      List.getElem?_range i.isLt, Option.map_some, Option.getD_some, eval, eval_weibull_norm,
+      eval_weibullIcdfE _ _ K i.val i.isLt]
+    simp [C05.weibull, C05.discretized, C05.normalise, C05.applyMu, C05.weibullRaw, envOf]
+  | some m =>
+    simp only [weibullRatesE, Option.map_some, List.getD_eq_getElem?_getD, List.getElem?_map,
+      List.getElem?_range i.isLt, Option.getD_some, eval, eval_weibull_norm,
+      eval_weibullIcdfE _ _ K i.val i.isLt]
+    simp [C05.weibull, C05.discretized, C05.normalise, C05.applyMu, C05.weibullRaw, envOf]
+
+
+theorem quantile_mem (K : Nat) (i : Fin K) : 0 < (C05.quantile K i : ℝ) ∧ (C05.quantile K i : ℝ) < 1 := by
+  have hK : (0 : ℝ) < K := by exact_mod_cast Nat.lt_of_le_of_lt (Nat.zero_le _) i.isLt
+  have hi : ((i.val : ℕ) : ℝ) + 1 ≤ K := by exact_mod_cast i.isLt
+  have hi0 : (0 : ℝ) ≤ ((i.val : ℕ) : ℝ) := Nat.cast_nonneg _
+  simp only [C05.quantile, C05.two]
+  constructor
+  · apply div_pos <;> linarith
+  · rw [div_lt_one (by linarith)]
+    linarith
+
+theorem weibull_base_pos (K : Nat) (i : Fin K) : 0 < -Real.log (1 - C05.quantile K i) := by
+  have h := quantile_mem K i
+  have : Real.log (1 - C05.quantile K i) < 0 := Real.log_neg (by linarith) (by linarith)
+  linarith
+
+theorem defined_weibullIcdfE (ρ : Nat → ℝ) (shape : Expr) (K i : Nat) (hi : i < K) (hs : Defined ρ shape)
+    (hs0 : eval ρ shape ≠ 0) : Defined ρ (weibullIcdfE shape K i) := by
+  have hq := quantile_mem K ⟨i, hi⟩
+  have hK : ((K : ℕ) : ℝ) ≠ 0 := by
+    have : 0 < K := Nat.lt_of_le_of_lt (Nat.zero_le _) hi
+    exact_mod_cast this.ne'
+  have hqd : Defined ρ (quantileE K i) := ⟨⟨⟨trivial, trivial⟩, trivial⟩, ⟨trivial, trivial⟩, by simp [eval, hK]⟩
+  refine ⟨⟨⟨trivial, hqd⟩, ?_⟩, ⟨trivial, hs, hs0⟩, ?_⟩
+  · simp only [eval, eval_quantileE ρ K i hi]
+    have : (1 : ℝ) - C05.quantile K ⟨i, hi⟩ ≠ 0 := by linarith [hq.2]
+    simpa using this
+  · simp only [eval, eval_quantileE ρ K i hi, trans_log_real]
+    have := weibull_base_pos K ⟨i, hi⟩
+    simpa using this
+
+theorem weibull_normaliser_pos (K : Nat) (hK : 0 < K) (shape : ℝ) :
+    0 < C05.normaliser (C05.weibullRaw K shape) (C05.probsPlain K) := by
+  rw [C05.normaliser, TT.sumFin_eq_sum]
+  have : Nonempty (Fin K) := ⟨⟨0, hK⟩⟩
+  apply Finset.sum_pos
+  · intro j _
+    apply mul_pos
+    · exact Real.rpow_pos_of_pos (weibull_base_pos K j) _
+    · simp only [C05.probsPlain]
+      have : (0 : ℝ) < K := by exact_mod_cast hK
+      positivity
+  · exact Finset.univ_nonempty
+
+/-- **Weibull site rates, derivative of every category rate in the shape** (and `mu` kept fixed). -/
+theorem hasDerivAt_weibull_rate_shape (K : Nat) (shape : ℝ) (mu : Option ℝ) (i : Fin K) (hs : shape ≠ 0) :
+    HasDerivAt (fun a => (C05.weibull K a none mu).rates i)
+      (partialD ((weibullRatesE K (var 0) none (mu.map fun _ => var 1)).getD i.val (nat 0))
+        (envOf (shape :: mu.toList)) 0) shape := by
+  have hK : 0 < K := Nat.lt_of_le_of_lt (Nat.zero_le _) i.isLt
+  have hdef : Defined (envOf (shape :: mu.toList))
+      ((weibullRatesE K (var 0) none (mu.map fun _ => var 1)).getD i.val (nat 0)) := by
+    have hs0 : eval (envOf (shape :: mu.toList)) (var 0) ≠ 0 := by simpa [eval, envOf] using hs
+    have hn : Defined (envOf (shape :: mu.toList)) (sumL (List.zipWith mul ((List.range K).map (weibullIcdfE (var 0) K))
+        ((List.range K).map fun _ => div (nat 1) (nat K)))) := by
+      refine (defined_sumL _ _).2 (mem_zipWith fun a ha b hb => ⟨?_, ?_⟩)
+      · obtain ⟨j, hj, rfl⟩ := List.mem_map.mp ha
+        exact defined_weibullIcdfE _ _ K j (List.mem_range.mp hj) trivial hs0
+      · obtain ⟨j, _, rfl⟩ := List.mem_map.mp hb
+        refine ⟨trivial, trivial, ?_⟩
+        have : ((K : ℕ) : ℝ) ≠ 0 := by exact_mod_cast hK.ne'
+        simpa [eval] using this
+    have hn0 : eval (envOf (shape :: mu.toList)) (sumL (List.zipWith mul ((List.range K).map (weibullIcdfE (var 0) K))
+        ((List.range K).map fun _ => div (nat 1) (nat K)))) ≠ 0 := by
+      rw [eval_weibull_norm]
+      exact (weibull_normaliser_pos K hK _).ne'
+    have hr := defined_weibullIcdfE (envOf (shape :: mu.toList)) (var 0) K i.val i.isLt trivial hs0
+    cases mu with
+    | none =>
+      simp only [weibullRatesE, Option.map_none, List.getD_eq_getElem?_getD, List.getElem?_map,
+        List.getElem?_range i.isLt, Option.map_some, Option.getD_some]
+      exact ⟨hr, hn, hn0⟩
+    | some m =>
+      simp only [weibullRatesE, Option.map_some, List.getD_eq_getElem?_getD, List.getElem?_map,
+        List.getElem?_range i.isLt, Option.getD_some]
+      exact ⟨⟨hr, hn, hn0⟩, trivial⟩
+  have h := hasDerivAt_of_eval' _ _ 0 (fun a => (C05.weibull K a none mu).rates i) hdef
+    (fun a => by
+      rw [update_envOf _ 0 (by simp)]
+      simpa using weibull_rate_eq_eval K a mu i)
+  simpa [envOf] using h
+
+/-- the hypotheses are met: 4 categories, shape 1/2, rate of category 2 -/
+example : HasDerivAt (fun a => (C05.weibull 4 a none none).rates (2 : Fin 4))
+    (partialD ((weibullRatesE 4 (var 0) none none).getD 2 (nat 0)) (envOf [(1 / 2 : ℝ)]) 0) (1 / 2) := by
+  simpa using hasDerivAt_weibull_rate_shape 4 (1 / 2) none (2 : Fin 4) (by norm_num)
+
+
+/-! ## ratio → height transform and its log-Jacobian (`GeneralNodeHeightTransform`, model `TT.C06`) -/
+
+/-- variable layout: ratio/root-height `x_j` is `var (2j)`, bound `b (n+j)` is `var (2j+1)` -/
+def ratioEnv (n : Nat) (b x : Nat → ℝ) : Nat → ℝ := fun v => if v % 2 = 0 then x (v / 2) else b (n + v / 2)
+
+theorem ratioEnv_x (n : Nat) (b x : Nat → ℝ) (j : Nat) : ratioEnv n b x (2 * j) = x j := by
+  simp [ratioEnv]
+
+theorem ratioEnv_b (n : Nat) (b x : Nat → ℝ) (j : Nat) : ratioEnv n b x (2 * j + 1) = b (n + j) := by
+  have h1 : (2 * j + 1) % 2 = 1 := by omega
+  have h2 : (2 * j + 1) / 2 = j := by omega
+  simp [ratioEnv, h1, h2]
+
+theorem ratioEnv_update (n : Nat) (b x : Nat → ℝ) (i : Nat) (t : ℝ) :
+    Function.update (ratioEnv n b x) (2 * i) t = ratioEnv n b (C06.upd x i t) := by
+  funext v
+  by_cases hv : v = 2 * i
+  · subst hv; simp [ratioEnv, C06.upd]
+  · rw [Function.update_of_ne hv]
+    by_cases hp : v % 2 = 0
+    · have : v / 2 ≠ i := by omega
+      simp [ratioEnv, hp, C06.upd, this]
+    · simp [ratioEnv, hp]
+
+/-- the fold of the builder evaluates to the fold of the C06 model, node by node -/
+theorem eval_heights_fold (ρ : Nat → ℝ) (n : Nat) (b x : Nat → ℝ) (bE xE : Nat → Expr)
+    (hb : ∀ j, eval ρ (bE j) = b (n + j)) (hx : ∀ j, eval ρ (xE j) = x j) :
+    ∀ (fwd : List (Nat × Nat)) (hE : Nat → Expr) (h : Nat → ℝ), (∀ k, eval ρ (hE k) = h k) →
+      ∀ k, eval ρ ((fwd.foldl (fun h (a : Nat × Nat) =>
+          updE h a.2 (add (bE a.2) (mul (xE a.2) (sub (h a.1) (bE a.2))))) hE) k)
+        = (fwd.foldl (fun h (a : Nat × Nat) =>
+          C06.upd h a.2 (b (n + a.2) + x a.2 * (h a.1 - b (n + a.2)))) h) k
+  | [], _, _, hh => hh
+  | a :: fwd, hE, h, hh => by
+    simp only [List.foldl_cons]
+    apply eval_heights_fold ρ n b x bE xE hb hx fwd
+    intro k
+    by_cases hk : k = a.2
+    · simp [updE, C06.upd, hk, eval, hb, hx, hh]
+    · simp [updE, C06.upd, hk, hh]
+
+/-- the bound variables and the ratio variables of the layout -/
+def bV (j : Nat) : Expr := var (2 * j + 1)
+def xV (j : Nat) : Expr := var (2 * j)
+
+theorem ratioFwd_eq_eval (n : Nat) (b x : Nat → ℝ) (fwd : List (Nat × Nat)) (k : Nat) :
+    C06.ratioFwd n b fwd x k =
+      eval (ratioEnv n b x) (heightsE fwd bV xV k) := by
+  unfold C06.ratioFwd heightsE
+  exact (eval_heights_fold (ratioEnv n b x) n b x bV xV (fun j => by simp [bV, eval, ratioEnv_b])
+    (fun j => by simp [xV, eval, ratioEnv_x]) fwd xV x (fun j => by simp [xV, eval, ratioEnv_x]) k).symm
+
+theorem defined_heights_fold (ρ : Nat → ℝ) (bE xE : Nat → Expr) (hb : ∀ j, Defined ρ (bE j))
+    (hx : ∀ j, Defined ρ (xE j)) :
+    ∀ (fwd : List (Nat × Nat)) (hE : Nat → Expr), (∀ k, Defined ρ (hE k)) →
+      ∀ k, Defined ρ ((fwd.foldl (fun h (a : Nat × Nat) =>
+          updE h a.2 (add (bE a.2) (mul (xE a.2) (sub (h a.1) (bE a.2))))) hE) k)
+  | [], _, hh => hh
+  | a :: fwd, hE, hh => by
+    simp only [List.foldl_cons]
+    apply defined_heights_fold ρ bE xE hb hx fwd
+    intro k
+    by_cases hk : k = a.2
+    · simp only [updE, hk, if_true]
+      exact ⟨hb _, hx _, hh _, hb _⟩
+    · simp only [updE, hk, if_false]
+      exact hh k
+
+theorem defined_heightsE (ρ : Nat → ℝ) (fwd : List (Nat × Nat)) (k : Nat) : Defined ρ (heightsE fwd bV xV k) := by
+  unfold heightsE
+  exact defined_heights_fold ρ bV xV (fun _ => trivial) (fun _ => trivial) fwd xV (fun _ => trivial) k
+
+/-- **Ratio transform: every node height in every ratio / in the root height** — unconditional
+(the transform uses only `+ − ×`). -/
+theorem hasDerivAt_ratioFwd (n : Nat) (b x : Nat → ℝ) (fwd : List (Nat × Nat)) (k i : Nat) :
+    HasDerivAt (fun t => C06.ratioFwd n b fwd (C06.upd x i t) k)
+      (partialD (heightsE fwd bV xV k) (ratioEnv n b x) (2 * i))
+      (x i) := by
+  have h := hasDerivAt_of_eval' (heightsE fwd bV xV k) (ratioEnv n b x) (2 * i)
+    (fun t => C06.ratioFwd n b fwd (C06.upd x i t) k) (defined_heightsE _ fwd k)
+    (fun t => by rw [ratioEnv_update, ratioFwd_eq_eval])
+  simpa [ratioEnv_x] using h
+
+/-- `log|det J|` of the ratio transform as the C06 model lists its terms -/
+noncomputable def ratioLogDet (n : Nat) (b : Nat → ℝ) (fwd : List (Nat × Nat)) (det : List Nat) (x : Nat → ℝ) : ℝ :=
+  ((C06.ratioDetTerms n b det (C06.ratioFwd n b fwd x)).map Real.log).sum
+
+theorem ratioLogDet_eq_eval (n : Nat) (b x : Nat → ℝ) (fwd : List (Nat × Nat)) (det : List Nat) :
+    ratioLogDet n b fwd det x =
+      eval (ratioEnv n b x)
+        (logJacE det bV (heightsE fwd bV xV)) := by
+  unfold ratioLogDet logJacE C06.ratioDetTerms
+  rw [eval_sumL_real, List.map_map, List.map_map]
+  congr 1
+  apply List.map_congr_left
+  intro a _
+  simp [bV, eval, ← ratioFwd_eq_eval, ratioEnv_b]
+
+/-- **Log-Jacobian of the ratio transform in every ratio / in the root height**, wherever every term
+`height(parent) − bound` is non-zero (always the case for ratios in (0,1) above the bounds). -/
+theorem hasDerivAt_ratioLogDet (n : Nat) (b x : Nat → ℝ) (fwd : List (Nat × Nat)) (det : List Nat) (i : Nat)
+    (hpos : ∀ v ∈ C06.ratioDetTerms n b det (C06.ratioFwd n b fwd x), v ≠ 0) :
+    HasDerivAt (fun t => ratioLogDet n b fwd det (C06.upd x i t))
+      (partialD (logJacE det bV
+          (heightsE fwd bV xV)) (ratioEnv n b x) (2 * i))
+      (x i) := by
+  have hdef : Defined (ratioEnv n b x) (logJacE det bV
+      (heightsE fwd bV xV)) := by
+    refine (defined_sumL _ _).2 ?_
+    intro e he
+    obtain ⟨a, ha, rfl⟩ := List.mem_map.mp he
+    refine ⟨⟨defined_heightsE _ fwd _, trivial⟩, ?_⟩
+    have : eval (ratioEnv n b x) (sub (heightsE fwd bV xV a.1)
+        (bV a.2)) ∈ C06.ratioDetTerms n b det (C06.ratioFwd n b fwd x) := by
+      simp only [C06.ratioDetTerms, List.mem_map]
+      exact ⟨a, ha, by simp [bV, eval, ← ratioFwd_eq_eval, ratioEnv_b]⟩
+    exact hpos _ this
+  have h := hasDerivAt_of_eval' (logJacE det bV (heightsE fwd bV xV)) (ratioEnv n b x) (2 * i)
+    (fun t => ratioLogDet n b fwd det (C06.upd x i t)) hdef
+    (fun t => by rw [ratioEnv_update, ratioLogDet_eq_eval])
+  simpa [ratioEnv_x] using h
 
 end TTProps.C12
